@@ -318,7 +318,7 @@ def gen_params(rng, tier, for_c09=False, force_n=None):
     maxfail = (n - 1) // 2
     crashers = sorted(rng.sample(range(1, n + 1), rng.randint(0, maxfail))) if maxfail > 0 else []
     return {"n": n, "nc": nc, "buf": rng.choice([2, 3, 4, 6, 10]), "fifo": True, "explorefail": True,
-            "crashers": crashers, "keys": rng.choice([1, 2, 3]), "vals": rng.choice([2, 3])}
+            "crashers": crashers, "keys": rng.choice([1, 1, 2, 3]), "vals": rng.choice([2, 3])}
 
 
 class WalkResult:
